@@ -7,13 +7,13 @@ from harness import rex_lib as rx
 from harness import rex_runs as rr
 
 
-def coverage_event(tid, given, kw, sizekw, dedup):
+def coverage_event(tid, given, kw, sizekw, dedup, decoded=None):
     """One Extractor: its match matrix (by Python re) and everything it reports about coverage."""
     r = rx.run_extract(given, **kw)
     if r['raised'] != 'none' or r['obj'] is None or not r['rex']:
         return None, r
     x = r['obj']
-    kept = rx.kept_examples(given, kw.get('strip', False), kw.get('remove_empties', False))
+    kept = rx.kept_examples(decoded if decoded is not None else given, kw.get('strip', False), kw.get('remove_empties', False))
     strings = sorted(kept)
     freqs = [kept[s] for s in strings]
     try:
@@ -63,6 +63,7 @@ def run(chk):
         ex = rx.rich_examples(rnd)
         kw, sizekw = rx.rich_options(rnd)
         mode = i % 4
+        decoded = None
         if mode == 0:
             # frequency dictionary; keys that collapse under stripping
             d = {}
@@ -77,6 +78,19 @@ def run(chk):
                 kw['strip'] = True
         elif mode == 1:
             given = list(ex) + [e for e in ex if e is not None]      # repeats
+        elif mode == 2 and i % 8 == 2:
+            # byte strings with an encoding (list or frequency dictionary), an empty one among them
+            enc = rnd.choice(['utf-8', 'utf-16', 'latin-1'])
+            strs = [e for e in ex if e is not None and (enc != 'latin-1' or all(ord(c_) < 256 for c_ in e))] + ['']
+            if rnd.random() < 0.5:
+                decoded = {}
+                for e in strs:
+                    decoded[e] = decoded.get(e, 0) + rnd.randint(1, 3)
+                given = {e.encode(enc): n_ for e, n_ in decoded.items()}
+            else:
+                decoded = list(strs)
+                given = [e.encode(enc) for e in strs]
+            kw['encoding'] = enc
         else:
             given = ex
         if rnd.random() < 0.25:
@@ -84,7 +98,7 @@ def run(chk):
         if rnd.random() < 0.2:
             kw['min_strings_per_pattern'] = rnd.randint(2, 3)
         dedup = rnd.random() < 0.5
-        ev, r = coverage_event(tid, given, kw, sizekw, dedup)
+        ev, r = coverage_event(tid, given, kw, sizekw, dedup, decoded=decoded if kw.get('encoding') else None)
         if ev is None:
             continue
         if r['store_has_repeated_entries'] and sizekw is None:
@@ -95,7 +109,7 @@ def run(chk):
         ev['sampling'] = sizekw is not None
         ev['store_ok'] = r['store_is_supplied']
         events.append(ev)
-        detail[tid] = {'examples': given, 'options': {k: v for k, v in kw.items() if k != 'size'}, 'size': sizekw, 'dedup': dedup,
+        detail[tid] = {'examples': given if not kw.get('encoding') else {'bytes_of': decoded, 'encoding': kw['encoding']}, 'options': {k: v for k, v in kw.items() if k != 'size'}, 'size': sizekw, 'dedup': dedup,
                        'returned': r['rex'], 'reported': r.get('full'), 'coverage': ev['cov'],
                        'n_examples': [ev['nexamples'], ev['nexamplesuniq']], 'supplied': [ev['supplied'], ev['supplieduniq']]}
         chk.coverage['replayed_cases'] += 1
